@@ -15,6 +15,7 @@ pub fn gen_case(fam: &str, r: &mut Rng, i: u64, p: &HashMap<String, String>) -> 
         "c14" => c14(r, i, p),
         "c07" => c07(r, i, p),
         "c10" => c10(r, i, p),
+        "c16" => c16(r, i, p),
         "c05" => c05(r, i, p),
         "c06" => c06(r, i, p),
         "c08" => c08(r, i, p),
@@ -515,4 +516,78 @@ fn c10(r: &mut Rng, i: u64, p: &HashMap<String, String>) -> Vec<Value> {
         }
     }
     vec![json!({"id": id("c10", i), "docs": docs, "cfg": cfg(deco, ops), "hist": hist})]
+}
+
+fn custom_deco(r: &mut Rng) -> Value {
+    // affix characters and prefix characters come from disjoint pools; each pool has ASCII, 2-byte
+    // width-1, 3-byte width-2 and empty members
+    let aff_s = ["«", "⟦", "‹", "〖", "{", "", "◆"]; let aff_e = ["»", "⟧", "›", "〗", "}", "", "◇"];
+    let mut d = serde_json::Map::new();
+    for k in ["link", "em", "strong", "strike", "code", "img"] {
+        let j = r.below(aff_s.len() as u64) as usize;
+        let (mut a, mut b) = (aff_s[j].to_string(), aff_e[j].to_string());
+        if r.chance(1, 6) { a.push_str(aff_s[r.below(5) as usize]); }
+        if r.chance(1, 8) { b = String::new(); }
+        d.insert(format!("{}_s", k), json!(a)); d.insert(format!("{}_e", k), json!(b));
+    }
+    d.insert("hdr".into(), json!(*r.pick(&["#", "§", "＃", "=", ""])));
+    d.insert("hdr_tail".into(), json!(*r.pick(&[" ", " ", "", "│"])));
+    d.insert("quote".into(), json!(*r.pick(&["> ", "│ ", "┃", "） ", "", "| "])));
+    d.insert("ul".into(), json!(*r.pick(&["* ", "• ", "・", "- ", "", "•  "])));
+    d.insert("ol_suffix".into(), json!(*r.pick(&[". ", "） ", ") ", "· ", "", "．"])));
+    json!({"custom": Value::Object(d)})
+}
+/// C16: parameterised decorators.  Three shapes: a C07-style block with stand-alone item renderings,
+/// a general block-grammar document (affix stream, width bound, no panic), and a trivial-decorator run.
+fn c16(r: &mut Rng, i: u64, p: &HashMap<String, String>) -> Vec<Value> {
+    let deco = custom_deco(r);
+    let c = json!({"deco": deco, "ops": []});
+    match r.below(3) {
+        0 => {
+            // reuse the C07 shapes with the custom decorator
+            let mut v = c07(r, i, p);
+            for case in v.iter_mut() {
+                case["id"] = json!(id("c16", i));
+                if let Some(runs) = case["runs"].as_array_mut() { for run in runs.iter_mut() { run["cfg"] = c.clone(); } }
+            }
+            // prefix widths differ from the built-in decorators: recompute the widths of the auxiliary runs in TLA+ terms is
+            // not possible here, so the stand-alone widths are fixed up by the executor-independent rule below
+            v.into_iter().filter_map(|mut case| {
+                let kind = case["meta"]["kind"].as_str().unwrap_or("").to_string();
+                let cu = &deco["custom"];
+                let wd = |s: &str| s.chars().map(|ch| unicode_width::UnicodeWidthChar::width(ch).unwrap_or(0) as u64).sum::<u64>();
+                let g = |k: &str| cu[k].as_str().unwrap_or("").to_string();
+                let n_items = case["runs"].as_array().map(|a| a.len() as i64 - 1).unwrap_or(0);
+                let pw = match kind.as_str() {
+                    "ul" => wd(&g("ul")), "blockquote" => wd(&g("quote")), "dd" => 2,
+                    "ol" => { let st = case["meta"]["start"].as_i64().unwrap_or(1); let last = st + n_items.max(1) - 1;
+                              (format!("{}", st).len().max(format!("{}", last).len()) as u64) + wd(&g("ol_suffix")) }
+                    k if k.starts_with('h') => { let l: u64 = k[1..].parse().unwrap_or(1); wd(&g("hdr")) * l + wd(&g("hdr_tail")) }
+                    _ => 0 };
+                let w = case["runs"][0]["w"].as_u64().unwrap_or(20).max(pw + 2);
+                if let Some(runs) = case["runs"].as_array_mut() {
+                    for (k, run) in runs.iter_mut().enumerate() { run["w"] = json!(if k == 0 { w } else { w - pw }); }
+                }
+                Some(case)
+            }).collect()
+        }
+        1 => {
+            let mut f = if r.chance(1, 4) { Feat::all() } else { Feat::notables() };
+            f.sup = false;
+            let mut g = G::new(r, f);
+            let body = g.flow(0);
+            let w = r.range(4, wmax(p, 80));
+            vec![json!({"id": id("c16", i), "meta": {"affix": 1}, "runs": [run(&doc_html(&body), w, c, "string")]})]
+        }
+        _ => {
+            let f = if r.chance(1, 3) { Feat::all() } else { Feat::notables() };
+            let mut g = G::new(r, f);
+            let body = g.flow(0);
+            let w = r.range(4, wmax(p, 80));
+            let mut ops = vec![];
+            if r.chance(1, 4) { ops.push(json!(["raw", true])); }
+            if r.chance(1, 4) { ops.push(json!(["noborders"])); }
+            vec![json!({"id": id("c16", i), "runs": [run(&doc_html(&body), w, cfg("trivial", ops), "string")]})]
+        }
+    }
 }
